@@ -24,7 +24,7 @@ Definition body_line_ok (keys : list string) (l : uline) : bool :=
   && negb (isspace (render_line l))
   && load_inert (render_line l) && expand_inert (render_line l).
 
-Definition text_ok (l : string) : bool := no_char (chr 60) l && no_char LF l.     (* no '<', one line *)
+Definition text_ok (l : string) : bool := no3 l && no_char LF l.     (* no "<<<", one line *)
 
 (* the expander stage of a block kind: its begin / end tags *)
 Definition stage_tags (k : ekind) : string * string :=
@@ -89,7 +89,7 @@ Definition cond_line_ok (l : uline) : bool :=
       && hasSpecificTag s (tagstr n)
       && String.eqb (removeDefault s) (render_line (drop_default l))
       && list_eqb (trans_tail s) (spec_absent l)
-      && forallb (no_char (chr 60)) (spec_absent l)
+      && forallb no3 (spec_absent l)
       && not_be2 pgt_tags s
   | None => false
   end.
@@ -118,10 +118,12 @@ Definition titem_ok (x : titem) : bool :=
       && forallb eitem_ok body
   end.
 
+Definition init_keys : list string := ["STATE_0"; "state_0"].
+
 Definition item16_ok (it : item16) : bool :=
   match it with
   | Text l => text_ok l
-  | Raw s => no_char (chr 60) s && (count_char LF s <=? 1)%nat
+  | Raw s => no3 s && (count_char LF s <=? 1)%nat
   | Block k ib ie body =>
       block_lines_ok (stage_tags k) (ib ++ begin_line (block_word k))%string (ie ++ end_line (block_word k))%string
       && forallb (body_line_ok (keys_of k)) body
@@ -131,6 +133,7 @@ Definition item16_ok (it : item16) : bool :=
   | TransBlock ib ie body =>
       block_lines_ok pst_tags (ib ++ begin_line "PER_STATETRANSITION")%string (ie ++ end_line "PER_STATETRANSITION")%string
       && forallb titem_ok body
+  | InitLine l => line_ok l && forallb (closed_seg init_keys) l && load_inert (render_line l)
   end.
 
 Definition in_grammar16 (t : template16) : bool :=
@@ -160,6 +163,7 @@ Definition item16_wf (e : elements) (it : item16) : bool :=
   | Block k _ _ body => block_wf (table_of_kind k) (items_of e k) body
   | SigBlock _ _ body => block_wf sig_table (el_sigs e) body
   | TransBlock _ _ _ => tps_wf (el_tps e)
+  | InitLine _ => forallb (fun kv => no_lg (snd kv)) (init_table (el_first e))
   end.
 
 Definition wf_elements16 (t : template16) (e : elements) : bool := forallb (item16_wf e) t.
@@ -168,7 +172,7 @@ Definition wf_elements16 (t : template16) (e : elements) : bool := forallb (item
 Definition elements_of_model (m : smodel) : elements :=
   {| el_states := sm_states m; el_events := sm_events m; el_actions := sm_actions m; el_guards := sm_guards m;
      el_sigs := map snd (sm_actionsigs m);
-     el_structs := if_structs m; el_protos := if_protos m; el_msgs := if_msgs m; el_tps := sm_tps m |}.
+     el_structs := if_structs m; el_protos := if_protos m; el_msgs := if_msgs m; el_tps := sm_tps m; el_first := sm_first m |}.
 
 Definition engine16 (m : smodel) (dict : list (string * string)) (t : template16) : option string :=
   generate_file m dict [] (render16 t).
